@@ -8,6 +8,13 @@ Reference forms: bare (f(a)), attr (module attribute through `import pkg.mod as 
 module-level alias name bound to the target), wrapped (target decorated by a functools.wraps
 decorator around the memento function).
 Every slot value occurs in the returned value, so every slot edit changes the un-memoized result.
+Optional features (all in the domain of C01/C03/C13/C14):
+  node["where"] == "init"   a plain leaf helper defined in the package's __init__ module and imported by name
+  node["cls"]               a plain leaf helper that is a static method of class node["cls"] (name "K1.sm"): two
+                            classes may give their helpers the same bare name
+  node["late"] (var)        a list/dict created empty before the definitions and filled in place after them
+  form "wrapped2"           the target decorated by two stacked functools.wraps decorators
+  node["fnarg"]             the function takes an optional memento function argument and calls it
 """
 import copy
 import json
@@ -22,7 +29,8 @@ def new_fn(name, kind, refs=(), hidden=(), explicit=None, cluster="vz"):
             "hidden": list(hidden), "explicit": explicit, "cluster": cluster}
 
 
-def random_prog(r, nmem=3, nplain=2, nvar=2, hidden_p=0.15, forms=("bare", "bare", "attr", "alias"), acyclic=True):
+def random_prog(r, nmem=3, nplain=2, nvar=2, hidden_p=0.15, forms=("bare", "bare", "attr", "alias"), acyclic=True,
+                init_p=0.0, twins_p=0.0, late_p=0.0):
     names = ["m%d" % i for i in range(1, nmem + 1)] + ["h%d" % i for i in range(1, nplain + 1)]
     vars_ = ["v%d" % i for i in range(1, nvar + 1)]
     nodes = []
@@ -45,7 +53,34 @@ def random_prog(r, nmem=3, nplain=2, nvar=2, hidden_p=0.15, forms=("bare", "bare
     pool = [0, 1, True, None, 1.5, "s", [1, 2], {"a": 1, "b": [1]}, [], ""]
     for v in vars_:
         nodes.append({"name": v, "kind": "var", "val": copy.deepcopy(r.choice(pool))})
+    fns = [n for n in nodes if n["kind"] in ("mem", "plain")]
+    # a plain leaf helper lives in the package's __init__ module
+    if r.random() < init_p:
+        leaves = [n for n in fns if n["kind"] == "plain" and not n["hidden"] and all(q["to"][0] == "v" for q in n["refs"])
+                  and all(q["form"] == "bare" for m_ in fns for q in m_["refs"] if q["to"] == n["name"])
+                  and any(q["to"] == n["name"] for m_ in fns for q in m_["refs"])]
+        if leaves:
+            lf = r.choice(leaves)
+            lf["where"] = "init"
+            lf["refs"] = []
+    # two static methods with the same bare name, both called by one function
+    if r.random() < twins_p:
+        user = r.choice([n for n in fns if n.get("where") != "init"])
+        for c in ("K1", "K2"):
+            nodes.append(dict(new_fn(c + ".sm", "plain"), cls=c))
+            user["refs"].append({"to": c + ".sm", "form": "bare"})
+    # a table created empty and filled in place after the definitions
+    if r.random() < late_p:
+        v = {"name": "vl", "kind": "var", "val": r.choice([[1, 2], {"a": 1}, [3], {"vat": 20, "x": [1]}]), "late": True}
+        nodes.append(v)
+        home = [n for n in fns if n.get("where") != "init"]
+        for u in r.sample(home, min(len(home), r.randint(1, 2))):
+            u["refs"].append({"to": "vl", "form": "bare"})
     return {"nodes": nodes}
+
+
+def is_fn(n):
+    return n["kind"] in ("mem", "plain")
 
 
 def node(prog, name):
@@ -67,7 +102,11 @@ def fn_source(n, twin=False, decorate=True):
         if n.get("explicit") is not None:
             args.append("version=%r" % n["explicit"])
         lines.append("@m.memento_function(%s)" % ", ".join(args))
-    lines.append("def %s(a, d=%d, *, k=%d):" % (name, s["dflt"], s["kwd"]))
+    defname = name.split(".")[-1]
+    if n.get("fnarg"):
+        lines.append("def %s(a, d=%d, fnarg=None, *, k=%d):" % (defname, s["dflt"], s["kwd"]))
+    else:
+        lines.append("def %s(a, d=%d, *, k=%d):" % (defname, s["dflt"], s["kwd"]))
     if not twin:
         lines.append("    log('Body', %r)" % name)
     lines.append("    acc = [%r, %d, 'c%d', d, k]" % (name, s["body"], s["const"]))
@@ -84,11 +123,18 @@ def fn_source(n, twin=False, decorate=True):
             lines.append("    acc.append(alias_%s(a))" % to)
         elif r["form"] == "wrapped":
             lines.append("    acc.append(wrapped_%s(a))" % to)
+        elif r["form"] == "wrapped2":
+            lines.append("    acc.append(wrapped2_%s(a))" % to)
         else:
             lines.append("    acc.append(%s(a))" % to)
+    if n.get("fnarg"):
+        lines.append("    if fnarg is not None:")
+        lines.append("        acc.append(fnarg(a))")
     for h in n.get("hidden", []):
         lines.append("    acc.append(globals()[%r](a))" % h)
     lines.append("    return acc")
+    if n.get("cls"):
+        lines = ["class %s:" % n["cls"], "    @staticmethod"] + ["    " + ln for ln in lines]
     return "\n".join(lines) + "\n"
 
 
@@ -129,18 +175,38 @@ def module_source(prog, twin=False, order=None):
         fns = sorted(fns, key=lambda n: order.index(n["name"]) if n["name"] in order else 99)
     for n in prog["nodes"]:
         if n["kind"] == "var":
-            out.append("%s = %r\n" % (n["name"], n["val"]))
+            if n.get("late"):
+                out.append("%s = %r\n" % (n["name"], type(n["val"])()))
+            else:
+                out.append("%s = %r\n" % (n["name"], n["val"]))
     for n in fns:
-        out.append("\n" + fn_source(n, twin=twin) + "\n")
+        if n.get("where") == "init" and not twin:
+            out.append("\nfrom %s import %s\n" % (PKG, n["name"]))
+        else:
+            out.append("\n" + fn_source(n, twin=twin) + "\n")
     out.append("_self = sys.modules[__name__]\n")
+    for n in prog["nodes"]:
+        if n["kind"] == "var" and n.get("late"):
+            out.append("%s.%s(%r)\n" % (n["name"], "extend" if isinstance(n["val"], list) else "update", n["val"]))
     for n in fns:
         for r in n["refs"]:
             if r["form"] == "alias":
                 out.append("alias_%s = %s\n" % (r["to"], r["to"]))
             elif r["form"] == "wrapped":
                 out.append("wrapped_%s = _deco(%s)\n" % (r["to"], r["to"]))
+            elif r["form"] == "wrapped2":
+                out.append("wrapped2_%s = _deco(_deco(%s))\n" % (r["to"], r["to"]))
     for a in prog.get("aliases", []):       # explicit alias bindings [name, target]
         out.append("%s = %s\n" % (a[0], a[1]))
+    return "".join(out)
+
+
+def init_source(prog):
+    """Source of the package's __init__ module: the plain helpers that live there."""
+    out = ['"""generated by /verif/harness/vprogs.py (package module)"""\nfrom verif_side import log\n']
+    for n in prog["nodes"]:
+        if n["kind"] in ("mem", "plain") and n.get("where") == "init":
+            out.append("\n" + fn_source(n) + "\n")
     return "".join(out)
 
 
@@ -158,6 +224,10 @@ def random_edit(r, prog, kinds=None):
         return {"edit": "slot", "name": n["name"], "slot": s}
     if k == "var" and vars_:
         n = r.choice(vars_)
+        if n.get("late"):
+            n["val"] = copy.deepcopy(r.choice([x for x in ([1, 2], [1, 2, 3], [5]) if x != n["val"]] if isinstance(n["val"], list)
+                                              else [x for x in ({"a": 1}, {"a": 2}, {"b": [1]}) if x != n["val"]]))
+            return {"edit": "var", "name": n["name"]}
         pool = [0, 1, 2, True, False, None, 1.5, "s", "t", [1, 2], [1, 2, 3], {"a": 1}, {"a": 2}]
         new = copy.deepcopy(r.choice([p for p in pool if p != n["val"] or type(p) != type(n["val"])]))
         n["val"] = new
@@ -172,14 +242,14 @@ def random_edit(r, prog, kinds=None):
                 n["val"]["k%d" % len(n["val"])] = 1
             return {"edit": "var_mutate", "name": n["name"]}
     if k == "addref":
-        n = r.choice(fns)
-        names = [x["name"] for x in fns]
+        n = r.choice([x for x in fns if x.get("where") != "init" and not x.get("cls")])
+        names = [x["name"] for x in fns if not x.get("cls") and x.get("where") != "init"]
         cands = [x for x in names if names.index(x) > names.index(n["name"]) and x not in [q["to"] for q in n["refs"]]]
         if cands:
             n["refs"].append({"to": r.choice(cands), "form": "bare"})
             return {"edit": "addref", "name": n["name"]}
     if k == "delref":
-        cands = [n for n in fns if any(q["to"][0] in "mh" for q in n["refs"])]
+        cands = [n for n in fns if any(q["to"][0] in "mh" for q in n["refs"]) and n.get("where") != "init"]
         if cands:
             n = r.choice(cands)
             q = r.choice([q for q in n["refs"] if q["to"][0] in "mh"])
